@@ -54,6 +54,9 @@ fn main() {
         qcfgs.push(QfCfg::wide(3, 61));
     }
     for cfg in qcfgs {
+        if run.n_violations() > 0 {
+            break; // a counterexample is in hand; larger tables only cost time (and can blow up on a buggy tree)
+        }
         let label = cfg.label.clone();
         let model = match QfModel::new(cfg, true) {
             Ok(m) => m,
@@ -62,7 +65,7 @@ fn main() {
                 continue;
             }
         };
-        let ex = qf::explore(&model, true, u64::MAX, n_threads());
+        let ex = qf::explore(&model, true, 2_000_000, n_threads());
         closed &= ex.stats.closed;
         // unions: all ordered pairs for <= 4 slots, (|B| <= 2) x all states for 8 slots
         let rights: Vec<qf::St> = if model.cfg.capacity() <= 4 && ex.states.len() <= 3000 { ex.states.clone() } else { ex.states.iter().filter(|s| s.set.count_ones() <= if thorough { 2 } else { 1 }).cloned().collect() };
@@ -113,7 +116,7 @@ fn main() {
         let mut ps = cuckoo::PairStats::default();
         let mut pv = vec![];
         if cfg.budget.is_some() && cfg.budget.unwrap() <= 2 && cfg.l == 2 && cfg.bucketsize == 2 && cfg.n_buckets == 2 {
-            let cm = CfModel::new(cfg.clone(), Mode::Classes, false).unwrap();
+            let cm = CfModel::new(cfg.clone(), Mode::Classes, true).unwrap(); // with deletes: right operands with holes in their buckets
             let cex = cuckoo::explore(&cm, true, 400_000, 1);
             let rights: Vec<cuckoo::St> = cex.states.iter().filter(|s| s.off == 0 && s.f.len() <= if thorough { 4 } else { 2 }).take(5000).cloned().collect();
             let lefts: Vec<cuckoo::St> = cex.states.iter().filter(|s| s.off == 0).take(5000).cloned().collect();
